@@ -336,7 +336,7 @@ def evalSlot (p : Pending) (glob : Oracle) (obsToks : List String) : String :=
     let (rs, es) := acc
     match fields t with
     | ["reg", n, kind, ra] =>
-      (rs ++ [{ name := unhex16 n, idx := rs.length, good := kind == "old" || kind == "pmf" || kind == "functor", readAll := ra == "1" }], es)
+      (rs ++ [{ name := unhex16 n, idx := rs.length, good := kind == "old" || kind == "old2" || kind == "pmf" || kind == "functor", readAll := ra == "1" }], es)
     | _ => match parseEvent t with | some e => (rs, es ++ [e]) | none => (rs, es)) ([], [])
   let p16 := (ora.misc.findSome? fun f => match f with | ["p16", x] => some (unhex16 x) | _ => none).getD []
   let path := p16.drop 1
